@@ -43,6 +43,34 @@ MergeOps(ops, flag) ==
        IF h.k THEN LET t == MergeOps(Tail(ops), flag) IN [ops |-> <<h>> \o t.ops, carry |-> t.carry]
        ELSE [ops |-> <<[h EXCEPT !.lig = @ \/ (flag /\ Bug # "IsLigNotPropagated")]>> \o Tail(ops), carry |-> FALSE]
 
+\* The first loop of calculate_replacements: what one instruction (op, z) means for the pair (x, y).
+\* done: the pair is finished with Replacement(fin, last); otherwise an OngoingCalculation with the
+\* finalized ops `fin` and Pending(p0, p1, p2) is created (p0.c = NonChar: left boundary, p2 = NoC: none).
+Form(x, y, op, z) ==
+  LET zl == Cc(z, TRUE)   yr == Cc(y, FALSE)   xl == Cc(x, FALSE)
+      Done(ops, last)       == [done |-> TRUE,  fin |-> ops, last |-> last, p0 |-> NoC, p1 |-> NoC, p2 |-> NoC]
+      Pend(ops, p0, p1, p2) == [done |-> FALSE, fin |-> ops, last |-> NoC,  p0 |-> p0,  p1 |-> p1,  p2 |-> p2]
+  IN IF op >= KernOp THEN Done(LeftOps(x) \o <<OpK(z)>>, yr)
+     ELSE CASE op = 3  -> Pend(<<>>, xl, zl, yr)                           \* RetainBothMoveNowhere
+            [] op = 7  -> IF Bug = "MoveTooFar" THEN Done(LeftOps(x) \o <<OpC(zl)>>, yr)
+                          ELSE Pend(LeftOps(x), zl, yr, NoC)               \* RetainBothMoveToInserted
+            [] op = 11 -> Done(LeftOps(x) \o <<OpC(zl)>>, yr)              \* RetainBothMoveToRight
+            [] op = 1  -> Pend(<<>>, zl, yr, NoC)                          \* RetainRightMoveToInserted
+            [] op = 5  -> Done(<<OpC(zl)>>, yr)                            \* RetainRightMoveToRight
+            [] op = 2  -> Pend(<<>>, xl, zl, NoC)                          \* RetainLeftMoveNowhere
+            [] op = 6  -> Done(LeftOps(x), zl)                             \* RetainLeftMoveToInserted
+            [] OTHER   -> Done(<<>>, zl)                                   \* RetainNeitherMoveToInserted
+
+\* The body of the work loop once the child pair (p0, p1) is settled: r is the child's replacement
+\* ([st |-> "none"] when it has no instruction).  Gives the new finalized ops and the character
+\* that is now under the cursor.
+Resolve(fin, p0, p1, r) ==
+  IF r.st = "none"
+  THEN \* "There is no lig/kern rule for this pair" (the left boundary is dropped on the floor)
+       [fin |-> fin \o (IF p0.c = NonChar THEN <<>> ELSE <<OpC(p0)>>), last |-> p1]
+  ELSE LET m == MergeOps(r.ops, p0.c # NonChar /\ p0.lig) IN
+       [fin |-> fin \o m.ops, last |-> Cc(r.last.c, r.last.lig \/ m.carry \/ p1.lig)]
+
 RECURSIVE Repl(_, _, _, _), Chain(_, _, _, _, _, _)
 
 \* Replacement of the pair (x, y); x = NonChar: left boundary.
@@ -53,31 +81,17 @@ Repl(P, x, y, pend) ==
   LET i == Lookup(P, x, y) IN
   IF i = 0 THEN [st |-> "none"]
   ELSE IF <<x, y>> \in pend THEN [st |-> "blocked"]
-  ELSE LET op == Ins(P, i)[3]   z == Ins(P, i)[4]   pd == pend \cup {<<x, y>>}
-           zl == Cc(z, TRUE)    yr == Cc(y, FALSE)  xl == Cc(x, FALSE)    \* xl.c = NonChar: None
-       IN IF op >= KernOp THEN Fin(LeftOps(x) \o <<OpK(z)>>, yr)
-          ELSE CASE op = 3  -> Chain(P, <<>>, xl, zl, yr, pd)                  \* RetainBothMoveNowhere
-                 [] op = 7  -> IF Bug = "MoveTooFar" THEN Fin(LeftOps(x) \o <<OpC(zl)>>, yr)
-                               ELSE Chain(P, LeftOps(x), zl, yr, NoC, pd)      \* RetainBothMoveToInserted
-                 [] op = 11 -> Fin(LeftOps(x) \o <<OpC(zl)>>, yr)              \* RetainBothMoveToRight
-                 [] op = 1  -> Chain(P, <<>>, zl, yr, NoC, pd)                 \* RetainRightMoveToInserted
-                 [] op = 5  -> Fin(<<OpC(zl)>>, yr)                            \* RetainRightMoveToRight
-                 [] op = 2  -> Chain(P, <<>>, xl, zl, NoC, pd)                 \* RetainLeftMoveNowhere
-                 [] op = 6  -> Fin(LeftOps(x), zl)                             \* RetainLeftMoveToInserted
-                 [] OTHER   -> Fin(<<>>, zl)                                   \* RetainNeitherMoveToInserted
+  ELSE LET f == Form(x, y, Ins(P, i)[3], Ins(P, i)[4]) IN
+       IF f.done THEN Fin(f.fin, f.last)
+       ELSE Chain(P, f.fin, f.p0, f.p1, f.p2, pend \cup {<<x, y>>})
 
-\* One OngoingCalculation: finalized ops `fin`, Pending(p0, p1, p2); p0.c = NonChar: boundary
+\* One OngoingCalculation followed to its end
 Chain(P, fin, p0, p1, p2, pend) ==
   LET r == Repl(P, p0.c, p1.c, pend) IN
   IF r.st = "blocked" THEN r
-  ELSE LET step ==
-             IF r.st = "none"
-             THEN \* "There is no lig/kern rule for this pair" (the left boundary is dropped on the floor)
-                  [fin |-> fin \o (IF p0.c = NonChar THEN <<>> ELSE <<OpC(p0)>>), last |-> p1]
-             ELSE LET m == MergeOps(r.ops, p0.c # NonChar /\ p0.lig) IN
-                  [fin |-> fin \o m.ops, last |-> Cc(r.last.c, r.last.lig \/ m.carry \/ p1.lig)]
-       IN IF p2.c = -1 THEN Fin(step.fin, step.last)
-          ELSE Chain(P, step.fin, step.last, p2, NoC, pend)
+  ELSE LET step == Resolve(fin, p0, p1, r) IN
+       IF p2.c = -1 THEN Fin(step.fin, step.last)
+       ELSE Chain(P, step.fin, step.last, p2, NoC, pend)
 
 \* the pairs calculate_replacements cannot finish = the pairs it reports loops for
 BlockedPairs(P) == {pr \in RulePairs(P) : Repl(P, pr[1], pr[2], {}).st = "blocked"}
